@@ -262,6 +262,17 @@ def K6():
     return witnesses_c18.K6()
 
 
+def K7():
+    """C05: explicit comment ending in backslash + whitespace does not round-trip"""
+    bp = _bp()
+    t = "@comment{a line \\\\\n}\n@article{k, x = {y}}"
+    l1 = bp.parse_string(t)
+    l2 = bp.parse_string(bp.write_string(l1))
+    k1 = [type(b).__name__ for b in l1.blocks]
+    k2 = [type(b).__name__ for b in l2.blocks]
+    return k1 == k2, "%r -> %r" % (k1, k2)
+
+
 def F16():
     """C18: converter exception with an empty message swallowed"""
     import witnesses_c18
@@ -282,7 +293,7 @@ def F17():
     return not shared, "output metadata list is the input's / the middleware's own list: %r" % shared
 
 
-ALL = [F1, F2, F3, F4, F5, F6, F7, F8, F9, F10, F11, F12, F13, F14, F15, F16, F17, K1, K2, K3, K4, K5, K6]
+ALL = [F1, F2, F3, F4, F5, F6, F7, F8, F9, F10, F11, F12, F13, F14, F15, F16, F17, K1, K2, K3, K4, K5, K6, K7]
 
 if __name__ == "__main__":
     import bibtexparser
